@@ -24,6 +24,9 @@ func (d *Driver) sample() {
 	defer inSample.Store(false)
 	now := d.lastNow
 	p := d.plan
+	if d.hasBare {
+		d.pollClaimsLocked("polled-at-quiescent-point")
+	}
 	j18 := p.judges("C18")
 	j09 := p.judges("C09")
 	j05 := p.judges("C05")
